@@ -178,7 +178,9 @@ func expected(g vkit.GJ) vkit.GJ {
 		return out
 	case "Bounds":
 		mn, mx := g.Pts[0], g.Pts[1]
-		return expected(vkit.GJ{T: "Polygon", Rings: [][]vkit.P2{{mn, {mx[0], mn[1]}, mx, {mn[0], mx[1]}}}})
+		// five vertices whatever the box looks like (a box without height has its fourth corner on its first one: that
+		// does not make the ring of four a closed one)
+		return vkit.GJ{T: "Polygon", Rings: [][]vkit.P2{{mn, {mx[0], mn[1]}, mx, {mn[0], mx[1]}, mn}}}
 	}
 	return g
 }
